@@ -147,6 +147,9 @@ def dry_vs_real_fetch(rng, driver):
 
 def run(chk, driver, tier):
     rng = chk.rng
+    # the COMPOSED model of `bumpver update` for LEGACY patterns (Model/UpdateV1.lean, theorems Props/UpdateV1.lean) against the real CLI
+    import props.updfull_v1 as updfull_v1
+    updfull_v1.run(chk, driver, 200 if tier == "thorough" else 20)
     # the LEGACY engine end to end: --dry changes nothing, its printed diff applied to the files gives what the real run writes
     import props.v1e2e as v1e2e
     v1e2e.run(chk, 300 if tier == "thorough" else 30, driver, faults=0.2)
